@@ -22,6 +22,10 @@ StartSt(e) == IF Has(e, "reset") /\ e.reset
                                                            IN  IF hv = {} THEN <<>> ELSE e.init[CHOOSE i \in hv : TRUE][2]]]
               ELSE st
 
+\* number of bytes of the file inside the record a GET addresses, when that record straddles the end of the file (else 0)
+PartialLen(s0, e) ==
+    LET f == s0.fil[e.n]  d == s0.disk[f.name]  t == Target(s0, e)
+    IN  IF t = FullRecs(d, f.reclen) + 1 THEN Len(d) - FullRecs(d, f.reclen) * f.reclen ELSE 0
 IsAccess(e) == e.op \in {"put", "get"}
 
 \* first clause violated by event e (s0 before, s1 expected after), "ok" if none
@@ -36,6 +40,12 @@ Judge(e, s0, s1) ==
         ELSE IF \E k \in FileNums : o[k].open # IsOpen(s1, k) THEN "open_files_differ_from_model"
         ELSE IF mine /\ e.op = "get" /\ e.ok /\ GetDetermined(s0, e) /\ o[n].buf # s1.buf[n]
             THEN "get_differs_from_bytes_last_put"
+        \* the record that straddles the end of the file (its length is not a multiple of this OPEN's record length, e.g. it was
+        \* written with another LEN): the bytes that lie inside the file are bytes last PUT and must be delivered; what pads the
+        \* rest of the buffer is not fixed by the statement
+        ELSE IF mine /\ e.op = "get" /\ e.ok /\ ~GetDetermined(s0, e) /\ PartialLen(s0, e) > 0
+                /\ SubSeq(o[n].buf, 1, PartialLen(s0, e)) # SubSeq(s1.buf[n], 1, PartialLen(s0, e))
+            THEN "get_of_record_straddling_the_end_differs_from_bytes_in_file"
         ELSE IF mine /\ e.op \in {"lset", "rset"} /\ e.ok /\ o[n].buf # s1.buf[n] THEN "ext_lset_rset_result"
         ELSE IF mine /\ o[n].lof # Len(s1.disk[s1.fil[n].name]) THEN "lof_differs_from_reclen_times_highest_record"
         ELSE IF mine /\ s1.fil[n].acc /\ o[n].loc # s1.fil[n].loc THEN "loc_not_last_record_accessed"
